@@ -184,14 +184,16 @@ def root_mutations(data, rng):
     yield ("truncated:length+1", head + der.enc_len(length + 1) + content)
 
 
-def node_mutations(data, rng, tier="quick", open_strings=True):
-    """Structure-aware mutations of every TLV (nested ones included).  Yields (kind, bytes)."""
+def node_mutations(data, rng, tier="quick", open_strings=True, parts=("nodes", "prefix", "bitflip")):
+    """Structure-aware mutations of every TLV (nested ones included).  Yields (kind, bytes).
+    parts: "nodes" = per-TLV damage (deterministic), "prefix" = truncation at every prefix, "bitflip" = single bit flips
+    (the last two are sampled for long encodings)."""
     tree = build(data, open_strings)
     if tree is None:
         return
     nodes = list(tree.walk())
     base = encode(tree)
-    for t in nodes:
+    for t in (nodes if "nodes" in parts else ()):
         w = _where(t)
         for name, rep in LEN_REPLACEMENTS:
             yield ("%s@%s" % (name, w), encode(tree, {id(t): (lambda n, c, rep=rep: n.tag + rep + c)}))
@@ -205,20 +207,29 @@ def node_mutations(data, rng, tier="quick", open_strings=True):
         if t.children is not None and not t.prefix and t.universal in (der.T_SEQUENCE, der.T_SET):
             yield ("member-dropped@%s" % w, encode(tree, {id(t): lambda n, c: _drop_last(n)}))
             yield ("member-duplicated@%s" % w, encode(tree, {id(t): lambda n, c: _dup_last(n)}))
+        if t.children is None and t.universal == der.T_OID and t.content:
+            # another (unknown / unsupported) algorithm, curve or scheme identifier
+            yield ("oid-last-arc+1@%s" % w, encode(tree, {id(t): lambda n, c: n.tag + der.enc_len(len(c)) + c[:-1] + bytes([(c[-1] + 1) & 0x7F])}))
+            yield ("oid=2.999@%s" % w, encode(tree, {id(t): lambda n, c: n.tag + b"\x02\x88\x37"}))
         if t.children is None and t.universal == der.T_INTEGER and t.content:
             # non-minimal INTEGER content (value preserving)
             pad = b"\xff" if t.content[0] & 0x80 else b"\x00"
             yield ("integer-nonminimal@%s" % w, encode(tree, {id(t): lambda n, c, pad=pad: n.tag + der.enc_len(len(c) + 1) + pad + c}))
             yield ("integer-empty@%s" % w, encode(tree, {id(t): lambda n, c: n.tag + b"\x00"}))
+            yield ("integer=0@%s" % w, encode(tree, {id(t): lambda n, c: n.tag + b"\x01\x00"}))
+            yield ("integer=-1@%s" % w, encode(tree, {id(t): lambda n, c: n.tag + b"\x01\xff"}))
+            yield ("integer=2^64@%s" % w, encode(tree, {id(t): lambda n, c: n.tag + b"\x09\x01" + bytes(8)}))
     # truncation at every prefix (sampled when long)
     n = len(base)
-    cuts = list(range(0, n)) if (n <= 96 or tier == "thorough" and n <= 700) else \
+    if "prefix" not in parts:
+        n = 0
+    cuts = list(range(0, n)) if (n <= 96 or tier == "thorough" and n <= 700) else [] if n == 0 else \
         sorted(set(list(range(0, 24)) + [n - k for k in range(1, 12)] + rng.sample(range(24, n - 11), 40 if tier == "quick" else 160)))
     for cut in cuts:
         yield ("truncated@prefix", base[:cut])
     # single bit flips
-    nb = n * 8
-    flips = list(range(nb)) if (nb <= 512 or tier == "thorough" and nb <= 2400) else \
+    nb = len(base) * 8 if "bitflip" in parts else 0
+    flips = list(range(nb)) if (nb <= 512 or tier == "thorough" and nb <= 2400) else [] if nb == 0 else \
         sorted(set(list(range(0, 48)) + rng.sample(range(48, nb), 96 if tier == "quick" else 600)))
     for bit in flips:
         b = bytearray(base)
